@@ -29,24 +29,37 @@ from pipefunc.cache import DiskCache, HybridCache, LRUCache, SimpleCache, Unhash
 
 sys.path.insert(0, str(Path(__file__).resolve().parent.parent))
 import c15_values as V  # noqa: E402
+import c15_calls  # noqa: E402
+import c15_extract  # noqa: E402
 
 PID = "C15"
-PROPS = ["PfModel.Props.C15"]
+PROPS = ["PfModel.Props.C15", "PfModel.Props.C15Keys", "PfModel.Props.C15Sort", "PfModel.Props.C15Src"]
+GENERATED = True          # Props/C15Src.lean is proved against lean/PfModel/Generated/C15Facts.lean, regenerated from the source on every run
 DRIVER = "C15"
 RULE = ("values from one seeded recursive generator (depth <= 3) over None/bool/int/float(half-integers, inf, nan, -0.0)/str/bytes/"
         "class objects/the marker string, tuple/list/deque/set/frozenset/dict/OrderedDict/defaultdict/Counter/bytearray/array.array/"
         "ndarray; ~60% of a batch are look-alikes derived from other values of the batch (other container type, permuted insertion "
         "order, int/float/bool retyping, forged tagged tuples built from real keys, dtype/shape/typecode/maxlen/default_factory "
         "changes, one leaf changed, wrapping); a separate stream adds pandas objects, picklable and unpicklable user objects, "
-        "subclasses, numpy scalars, object arrays, mixed-type and partially ordered sets. A case is one ordered pair of values of a "
-        "batch; non-trivial when at least one of the two is a container; distinct by the pair of specs")
+        "subclasses, numpy scalars, object arrays, mixed-type and partially ordered sets, Fortran-ordered / strided / 0-d / masked / "
+        "structured arrays. A case is one ordered pair of values of a batch; non-trivial when at least one of the two is a "
+        "container; distinct by the pair of specs. A second stream (c15_calls.py) draws values from the same batches and makes "
+        "calls: memoized functions of 1-3 parameters with defaults called with the same effective arguments passed positionally / "
+        "by keyword / in another keyword order / with defaults given explicitly and with look-alike values; compute_cache_key "
+        "directly; cached one- and two-function pipelines through Pipeline.__call__ with every cache type; Pipeline.map with a "
+        "cache. A call case is non-trivial always (every call carries at least one argument); distinct by signature, passing "
+        "style and argument specs")
 ASSUMPTIONS = ["int, float and bool of equal value are one model value (Python == and hash do not distinguish them; the statement is read "
                "with Python's ==)", "floats are half-integers, inf or nan; nan equality is object identity (fresh objects for ndarray data)",
                "md5 of the cloudpickle bytes is treated as collision-free (opaque digest in the model); pandas objects and fallback "
                "objects are checked for determinism and collision-freedom on the implementation only",
                "a frozenset is listed in a canonical order by the encoder (to_hashable never iterates a frozenset)",
                "sorted() is modelled only where the elements are pairwise strictly ordered by < (then its result is unique); "
-               "partially ordered elements (frozensets, nan) are answered 'unspecified' by the model"]
+               "partially ordered elements (frozensets, nan) are answered 'unspecified' by the model",
+               "the translator harness/c15_extract.py reads the isinstance chain of to_hashable with ast; its vocabulary (helper "
+               "called, sort flag, leading attributes) is trusted to describe what the branch does",
+               "'effective arguments' of a call are what inspect.Signature.bind + apply_defaults computes (bindArgs in the model, "
+               "compared with inspect on every run); only positional-or-keyword parameters are generated"]
 
 HARNESS = Path(__file__).resolve().parent.parent
 M = V.MARKER
@@ -161,9 +174,35 @@ def g_value(rng, d=0):  # noqa: C901, PLR0911, PLR0912
     return ["nd", shape, dtype, [rng.choice(pool) if rng.random() < 0.3 else rng.choice([0, 1]) for _ in range(size)]]
 
 
+EMPTIES = [["list", []], ["tuple", []], ["dict", []], ["set", []], ["fset", []], ["odict", []], ["deque", None, []], ["bytearray", []],
+           ["bytes", []], ["str", ""], ["none"], ["counter", []], ["ddict", None, []], ["nd", [0], "<f8", []], ["array", "i", []]]
+ONES = [["int", 1], ["float", 1.0], ["bool", True], ["npscalar", "int64", 1], ["npscalar", "float64", 1], ["npscalar", "bool_", 1],
+        ["str", "1"], ["bytes", [49]], ["int", 0], ["float", 0.0], ["float", -0.0], ["bool", False], ["nd", [], "<i8", [1]], ["nd", [1], "<i8", [1]]]
+
+
+def g_family_lookalikes(rng):
+    """the look-alike families named in the task: empties of every container type, 1 / 1.0 / True / np.int64(1) / '1' / b'1',
+    0.0 / -0.0 / False — bare and nested one level"""
+    s = rng.choice(EMPTIES if rng.random() < 0.5 else ONES)
+    r = rng.random()
+    if r < 0.4:
+        return s
+    if r < 0.6:
+        return ["list", [s]]
+    if r < 0.8:
+        return ["tuple", [s]]
+    return ["dict", [[["str", "k"], s]]]
+
+
 def g_outside(rng):  # noqa: PLR0911
     """The stream outside the modelled fragment / outside what the generator considers well-formed."""
-    r = rng.randrange(14)
+    r = rng.randrange(18)
+    if r == 14:
+        return ["ma", [3], "<i8", [1, 2, 3], [0, rng.randrange(2), 0]]
+    if r == 15:
+        return ["nds", [[rng.choice(["a", "x"]), "<i4"], ["b", rng.choice(["<f4", "<i4"])]], [[1, 2]]]
+    if r in (16, 17):
+        return g_family_lookalikes(rng)
     if r == 0:
         return ["set", [["int", 1], ["str", "a"]]]                                        # DF-20 (a)
     if r == 1:
@@ -307,6 +346,23 @@ def retype(rng, s):  # noqa: C901, PLR0911, PLR0912
     if t == "array":
         return rng.choice([["array", rng.choice("bilqd"), s[2]], ["list", [["int", x] for x in s[2]]],
                            ["nd", [len(s[2])], "<i8", s[2]], ["tuple", [["str", s[1]], ["tuple", [["int", x] for x in s[2]]]]]])
+    if t in ("ndf", "ndview"):
+        return ["nd", s[1], s[2], s[3]]
+    if t == "ma":
+        return rng.choice([["nd", s[1], s[2], s[3]], ["ma", s[1], s[2], s[3], [0] * len(s[3])], ["ma", s[1], s[2], [0] * len(s[3]), s[4]]])
+    if t == "nd" and rng.random() < 0.3 and all(x not in ("nan", "inf") for x in s[3]):
+        r = rng.random()
+        if r < 0.3:
+            return ["ndf", s[1], s[2], s[3]]                       # same value, other memory order: the key must not change
+        if r < 0.55:
+            return ["ndview", s[1], s[2], s[3]]                    # same value, non-contiguous strides
+        if r < 0.75:
+            return ["ma", s[1], s[2], s[3], [0] * len(s[3])]       # a masked array without masked elements: another type
+        if r < 0.85 and s[3]:
+            return ["ma", s[1], s[2], s[3], [rng.randrange(2) for _ in s[3]]]
+        if len(s[3]) == 1:
+            return ["nd", [] if s[1] != [] else [1], s[2], s[3]]   # 0-d against 1-d
+        return ["nds", [["f0", s[2]]], [[x] for x in s[3]]]        # a structured array with one field
     if t == "nd":
         r = rng.random()
         if r < 0.35:
@@ -546,8 +602,9 @@ def _m_objarr(case, params, impl, model):
     if case.get("kind") != "unhashable-key":
         return False
     for x in _walk(V.build(case["a"])):
-        if isinstance(x, np.ndarray) and x.dtype == object and any(not _is_hashable(e) for e in x.flatten()):
-            return True
+        if isinstance(x, np.ndarray) and (x.dtype == object or x.dtype.names is not None or isinstance(x, np.ma.MaskedArray)) and any(
+                not _is_hashable(e) for e in tuple(x.flatten())):
+            return True                                    # object / structured (np.void) / masked (MaskedConstant) elements
         if isinstance(x, collections.Counter) and any(not _is_hashable(v) for v in x.values()):
             return True
     return False
@@ -582,6 +639,12 @@ CORPUS = [
     ["series", "x", [[["int", 0], ["int", 1]]]], ["series", "y", [[["int", 0], ["int", 1]]]],
     ["series", "x", [[["int", 0], ["int", 2]], [["int", 1], ["int", 1]]]], ["series", "x", [[["int", 1], ["int", 1]], [["int", 0], ["int", 2]]]],   # row order
     ["list", [["unpicklable"]]],
+    # round 2: memory order / strides / 0-d / masked / structured arrays, the empties, the ones
+    ["nd", [2, 2], "<i8", [1, 2, 3, 4]], ["ndf", [2, 2], "<i8", [1, 2, 3, 4]], ["ndview", [2, 2], "<i8", [1, 2, 3, 4]], ["nd", [2, 2], "<i8", [1, 3, 2, 4]],
+    ["nd", [], "<i8", [1]], ["nd", [1], "<i8", [1]], ["ma", [2], "<i8", [1, 2], [0, 0]], ["nd", [2], "<i8", [1, 2]],
+    ["ma", [3], "<i8", [1, 2, 3], [0, 1, 0]],                                                          # masked element: MaskedConstant in the key
+    ["nds", [["a", "<i4"], ["b", "<f4"]], [[1, 2]]],                                                   # np.void in the key
+    *EMPTIES, *ONES, ["list", [["list", []]]], ["list", [["tuple", []]]], ["tuple", [["list", []]]], ["list", [["dict", []]]], ["list", [["set", []]]],
 ]
 
 
@@ -686,7 +749,8 @@ def check_batch(ctx, b: Batch, resp, resp_shuf, child_lines):  # noqa: C901, PLR
                           f"(value equal to itself: {same_self})", impl=[repr(k)[:200], repr(k2)[:200]])
     # ---- all pairs: keys equal <=> same value
     reflexive = {i: V.py_same(b.vals[i], b.vals[i]) for i in usable}       # False: holds a NaN compared by `==` (ndarray data, Counter counts)
-    fallback = {i: uses_fallback(b.vals[i]) for i in usable}               # pickle fallback / pandas: collision-freedom and determinism only
+    fallback = {i: uses_fallback(b.vals[i]) for i in usable}               # holds a pickle-fallback object or a pandas object
+    pickled = {i: uses_pickle(b.vals[i]) for i in usable}                  # holds an object keyed by its cloudpickle digest
     for x, i in enumerate(usable):
         vi, ki, si = b.vals[i], b.keys[i][1], b.specs[i]
         ci = si[0] not in ("int", "float", "bool", "str", "bytes", "none", "cls", "nan")
@@ -698,9 +762,21 @@ def check_batch(ctx, b: Batch, resp, resp_shuf, child_lines):  # noqa: C901, PLR
             if eqk:
                 ctx.count("pairs:equal-keys")
             if eqk and not same and not (reflexive[i] and reflexive[j]):
-                ctx.count("pairs:not-judged-value-unequal-to-itself")
-            elif same and not eqk and (fallback[i] or fallback[j]):
-                ctx.count("pairs:split-not-judged-pickle-fallback-or-pandas")
+                # a value holding a NaN that `==` compares (ndarray data, Counter counts) is not equal to itself.  Sound whatever the
+                # NaNs are: if the two values differ even when every NaN is taken equal to every NaN, equal keys are a collision.
+                if not same_nan_equal(vi, b.vals[j]):
+                    ctx.violation({"kind": "collision", "a": si, "b": b.specs[j]}, "different values (also with all NaNs taken as equal) get "
+                                  "equal keys", impl=[repr(ki)[:200], repr(b.keys[j][1])[:200]])
+                else:
+                    ctx.count("pairs:not-judged-differ-only-in-nan-identity")
+            elif same and not eqk and (pickled[i] or pickled[j]):
+                # the digest of a pickle is not a function of the value (sharing, insertion histories inside the object).  Judged
+                # where it is: two objects built the same way (identical specs) in one process pickle identically.
+                if V.dumps(si) == V.dumps(b.specs[j]):
+                    ctx.violation({"kind": "split", "a": si, "b": b.specs[j]}, "two identically constructed objects get different keys "
+                                  "(pickle fallback)", impl=[repr(ki)[:200], repr(b.keys[j][1])[:200]])
+                else:
+                    ctx.count("pairs:split-not-judged-pickle-fallback")
             elif eqk and not same and (fallback[i] or fallback[j]) and same_nan_equal(vi, b.vals[j]):
                 ctx.count("pairs:fallback-objects-differing-only-in-nan-identity")      # a pickle cannot tell NaN objects apart
             elif eqk and not same:
@@ -786,6 +862,10 @@ def uses_fallback(obj):
     return any(isinstance(x, V.Obj) or type(x).__module__.split(".")[0] == "pandas" for x in _walk(obj))
 
 
+def uses_pickle(obj):
+    return any(isinstance(x, V.Obj) for x in _walk(obj))
+
+
 def _has_opaque(j):
     if isinstance(j, dict):
         if j.get("k") == "opaque":
@@ -863,7 +943,64 @@ def compare_memo(ctx, resp, hits_by_cache, specs):
     ctx.count("memo:sequences-compared-with-model")
 
 
-# ------------------------------------------------------------------------------------------------ entry points
+# ------------------------------------------------------------------------------------------------ the keys around to_hashable
+def call_checks(ctx, b: Batch, rng, tmp, scale):
+    """The streams of c15_calls.py over the values of one batch that can be arguments of a cached call: a hashable key, equal to
+    themselves, no numpy scalar inside (LRUCache/HybridCache.get compare keys with `list.remove`, see check_memo)."""
+    import numpy as np
+    idx = [i for i in range(len(b.specs)) if b.keys[i][0] == "ok" and _is_hashable(b.keys[i][1]) and V.py_same(b.vals[i], b.vals[i])
+           and not any(isinstance(x, np.generic) or (isinstance(x, float) and x != x) for x in _walk(b.vals[i]))]
+    # (a NaN is equal to itself only as the same object: shared / disk caches pickle their keys and lose that identity, and
+    #  `_func_defaults` asserts `default == default` — neither is about the key; NaN-holding values are judged in check_batch)
+    if len(idx) < 8:
+        return None
+    # neighbours in a batch are often look-alikes of each other (derived values follow their originals): keep the batch order,
+    # and prefer values inside the modelled fragment so that most call sequences can be compared with the model
+    idx = [i for i in idx if b.pv[i] is not None or rng.random() < 0.15][:200]
+    cc = c15_calls.CallCheck(ctx, rng, [b.specs[i] for i in idx], [b.vals[i] for i in idx], [b.pv[i] for i in idx], tmp)
+    cc.enc = b.enc
+    cc.memoize_stream(4 * scale, 24).bind_stream(60 * scale).pipekey_stream(3 * scale, 10).pipeline_stream(4 * scale, 16).map_stream(3 * scale, 9)
+    return cc
+
+
+def sorted_with_ties(ctx, rng, n):
+    """`sortW` (the stable sort over totally preordered keys) against Python's `sorted(pairs, key=first)`: the keys come from one
+    comparable family and repeat — also as 1 / 1.0 / True, one model value, a tie for `<` — the second components tell the tied
+    entries apart, so the comparison sees whether ties keep their input order."""
+    enc = V.Encoder()
+    lists, expect = [], []
+    for _ in range(n):
+        fam = g_family(rng, rng.randint(1, 3))
+        ks = [rng.choice(fam) for _ in range(rng.randint(0, 6))]
+        if fam and fam[0][0] in ("int", "float", "bool"):
+            ks = [retype(rng, k) if k[0] in ("int", "bool") and k[1] in (0, 1, True, False) and rng.random() < 0.4 else k for k in ks]
+            ks = [k for k in ks if k[0] in ("int", "float", "bool")]
+        pairs = [(V.build(k), i) for i, k in enumerate(ks)]
+        try:
+            py = sorted(pairs, key=lambda p: p[0])
+            lists.append([[enc.enc(k), enc.enc(i)] for k, i in pairs])
+            expect.append([[enc.enc(k), enc.enc(i)] for k, i in py])
+        except Exception:  # noqa: BLE001
+            continue
+
+    def cb(resp):
+        for l, e, r in zip(lists, expect, resp):
+            ctx.count("sortw:with-ties" if len({V.dumps(p[0]) for p in l}) < len(l) else "sortw:strict")
+            if "sorted" not in r or V.dumps(r["sorted"]) != V.dumps(e):
+                ctx.violation({"kind": "sortw-model", "pairs": l}, "the model's stable sort (sortW) differs from Python's sorted(key=first)",
+                              found_input=False, item="correspondence:sorted-ties", impl=e, model=r)
+    return {"m": "sortw", "a": {"lists": lists}}, cb
+
+
+def pre_build(ctx):
+    """Translator (secondary tie): regenerate lean/PfModel/Generated/C15Facts.lean from pipefunc/cache.py."""
+    ok, detail = c15_extract.write()
+    ctx.extra["translated_from_source"] = {"ok": ok, "detail": detail if not ok else {
+        "branches": [[b["tests"], b["body"], b["attrs"]] for b in detail["branches"]], "prelude": detail["prelude"], "helpers": detail["helpers"]}}
+    if not ok:
+        ctx.notes.append(f"translator could not read to_hashable: {detail} (broken tie: C15_dispatch cannot check; the behavioural search decides)")
+
+
 def run(ctx):
     tmp = tempfile.mkdtemp(prefix="verif-c15-")
     try:
@@ -882,18 +1019,66 @@ def run(ctx):
             if m:
                 memo_meta.append((len(reqs), m[1], m[2]))
                 reqs.append(m[0])
+        call_meta = []
+        for b in batches:
+            cc = call_checks(ctx, b, rng, tmp, 3 if ctx.tier == "quick" else 6)
+            if cc:
+                for req, cb in cc.reqs:
+                    call_meta.append((len(reqs), cb))
+                    reqs.append(req)
+        sw_req, sw_cb = sorted_with_ties(ctx, rng, 200 if ctx.tier == "quick" else 2000)
+        call_meta.append((len(reqs), sw_cb))
+        reqs.append(sw_req)
         outs = ctx.lean(reqs)
         children = run_children(batches_specs, tmp)
         for bi, b in enumerate(batches):
             check_batch(ctx, b, outs[2 * bi]["r"], outs[2 * bi + 1]["r"], [c[bi] for c in children])
         for pos, hits, specs in memo_meta:
             compare_memo(ctx, outs[pos]["r"], hits, specs)
+        for pos, cb in call_meta:
+            cb(outs[pos]["r"])
         ctx.notes.append(f"batches={len(batches)} values={sum(len(b.specs) for b in batches)}")
     finally:
         shutil.rmtree(tmp, ignore_errors=True)
 
 
+def replay_call(case):
+    """the call kinds of c15_calls.py: print the key pipefunc builds for each of the two calls of the case"""
+    from pipefunc._pipeline._cache import compute_cache_key
+    B = V.Builder()
+    kind = case["kind"]
+
+    def show(label, fn):
+        st, k = V.describe(lambda _: fn(), None)
+        print(f"{label}: {st} {k!r}"[:700])
+        return (st, k)
+
+    if kind in ("memo-call", "memo-key-model"):
+        calls = [("this call", case)] + [(n, case[n]) for n in ("stored_for", "earlier") if case.get(n)]
+        ks = [show(n, lambda c=c: to_hashable((tuple(B.b(x) for x in c["args"]), {k: B.b(v) for k, v in c["kwargs"].items()}))) for n, c in calls]
+    elif kind in ("pipe-key", "pipe-key-model", "unhashable-key") and "roots" in case:
+        calls = [("this call", case)] + ([("other", case["other"])] if case.get("other") else [])
+        ks = [show(n, lambda c=c: compute_cache_key(tuple(c["out"]) if isinstance(c["out"], list) else c["out"],
+                                                   {k: B.b(v) for k, v in c["kwargs"].items()}, tuple(c["roots"]))) for n, c in calls]
+    elif kind == "pipeline-call":
+        roots = ["a", "b", "c"] if case["two"] else ["a", "b"]
+        calls = [("this call", case["kwargs"])] + [(n, case[n]) for n in ("stored_for", "earlier") if case.get(n)]
+        ks = [show(n, lambda c=c: compute_cache_key(case["out"], {"b": B.b(case["default_b"]), **{k: B.b(v) for k, v in c.items()}}
+                                                   if not case["two"] else {k: B.b(v) for k, v in c.items()}, tuple(roots))) for n, c in calls]
+    elif kind == "map-cache" and "i" in case:
+        ks = [show(f"element {x}", lambda x=x: ("y", to_hashable({"a": B.b(case["a"][x]), "b": B.b(case["b"])}))) for x in (case["i"], case["j"])]
+        print("elements are the same value:", V.py_same(B.b(case["a"][case["i"]]), B.b(case["a"][case["j"]])))
+    else:
+        print("case:", json.dumps(case)[:2000])
+        return
+    if len(ks) == 2 and ks[0][0] == ks[1][0] == "ok":
+        print("keys equal:", V.keq(ks[0][1], ks[1][1]))
+
+
 def replay(ctx, case):
+    if case.get("kind") in ("memo-call", "memo-key-model", "pipe-key", "pipe-key-model", "pipeline-call", "map-cache", "pipeline-model",
+                            "memo-call-model", "bind-model", "sortw-model") or (case.get("kind") == "unhashable-key" and "roots" in case):
+        return replay_call(case)
     B = V.Builder()
     enc = V.Encoder()
     for name in ("a", "b"):
